@@ -676,7 +676,16 @@ func (p *Program) ruleOptionPropagation(c *Check) {
 			}
 		}
 		if len(own) == 0 {
-			continue
+			// a closure of a function that has options must still pass those on
+			rootHas := false
+			for _, prm := range root.Params {
+				if isOpts(prm.Type()) {
+					rootHas = true
+				}
+			}
+			if !rootHas || root == fn {
+				continue
+			}
 		}
 		isOwn := func(v ssa.Value) bool {
 			for depth := 0; depth < 6; depth++ {
@@ -791,8 +800,10 @@ func (p *Program) ruleRequireValid(c *Check) {
 					checks = true
 				}
 			case *ast.CallExpr:
-				if f, _ := typeutil.Callee(info, x).(*types.Func); f != nil && f == p.Func("geojson", "Parse") {
-					viaParse = true
+				if f, _ := typeutil.Callee(info, x).(*types.Func); f != nil {
+					if f == p.Func("geojson", "Parse") || p.callsParse(f, 0) {
+						viaParse = true
+					}
 				}
 			}
 			return true
@@ -812,54 +823,73 @@ func (p *Program) ruleRequireValid(c *Check) {
 // V6: representation options build the alternative kind from the same values.
 func (p *Program) ruleRepresentationOptions(c *Check) {
 	fn := p.Func("geojson", "parseJSONPoint")
-	fd := p.Decl(fn)
-	if fd == nil {
+	coords := p.Func("geojson", "parseJSONPointCoords")
+	if fn == nil || coords == nil || p.Decl(fn) == nil {
 		c.Undecided("E7.V6", "anchor:geojson.parseJSONPoint", "", "parser not found")
 		return
 	}
-	var found bool
-	ast.Inspect(fd.Body, func(nd ast.Node) bool {
-		is, ok := nd.(*ast.IfStmt)
-		if !ok || !strings.Contains(types.ExprString(is.Cond), ".AllowSimplePoints") {
-			return true
-		}
-		found = true
-		src := func(b ast.Stmt, field string) string {
-			out := ""
-			if b == nil {
-				return ""
+	before := len(c.Obs)
+	p.runE8(c, &e8row{id: "geojson.parseJSONPoint#AllowSimplePoints", fn: fn, opaque: map[*types.Func]bool{coords: true},
+		what: "a SimplePoint is returned exactly when AllowSimplePoints is set and the position has no extra ordinates or members; either way the object holds the parsed position (and a Point keeps its extra block)",
+		spec: func(a *e8assign, n *e8names, out *e8out) string {
+			if !out.returned || len(out.ret) != 2 {
+				return "unexpected result shape"
 			}
-			ast.Inspect(b, func(m ast.Node) bool {
-				switch x := m.(type) {
-				case *ast.AssignStmt:
-					for i, l := range x.Lhs {
-						if sel, ok := l.(*ast.SelectorExpr); ok && sel.Sel.Name == field && i < len(x.Rhs) {
-							out = types.ExprString(x.Rhs[i])
-						}
-					}
-				case *ast.KeyValueExpr:
-					if id, ok := x.Key.(*ast.Ident); ok && id.Name == field {
-						out = types.ExprString(x.Value)
-					}
+			obj := out.ret[0]
+			if obj == nil || obj.k != kStruct || obj.typ == nil {
+				return "" // an error path
+			}
+			calls := out.in.called("parseJSONPointCoords")
+			if len(calls) != 1 {
+				return "the position is not parsed exactly once"
+			}
+			posName := calls[0].name + "#0"
+			exName := calls[0].name + "#1"
+			allow := false
+			for _, b := range n.bools {
+				if strings.HasSuffix(b, ".AllowSimplePoints") {
+					allow = a.B(b)
 				}
-				return true
-			})
-			return out
-		}
-		a, b := src(is.Body, "Point"), src(is.Else, "base")
-		cond := types.ExprString(is.Cond)
-		gated := strings.Contains(cond, "== nil")
-		if a != "" && a == b && gated {
-			c.OK("E7.V6", "geojson.parseJSONPoint#AllowSimplePoints", p.Pos(is.Pos()), "both representations are built from the same position `"+a+"`, and the simple one only when there are no extra members")
-		} else {
-			o := c.Bad("E7.V6", "geojson.parseJSONPoint#AllowSimplePoints", p.Pos(is.Pos()), "the SimplePoint and the Point are not built from the same parsed position, or the simple form is chosen although extra members/ordinates exist")
-			o.Expected = "SimplePoint.Point and Point.base assigned from one value, gated by extra == nil"
-			o.Observed = "SimplePoint.Point=" + a + " Point.base=" + b + " cond=" + cond
-		}
-		return false
-	})
-	if !found {
-		c.Undecided("E7.V6", "geojson.parseJSONPoint#AllowSimplePoints", p.declPos(fn), "the AllowSimplePoints branch was not found")
+			}
+			// does the object end up without an extra block?
+			var membersEmpty, exNil bool
+			for _, b := range n.bools {
+				if strings.HasPrefix(b, "isnil("+exName) {
+					exNil = a.B(b)
+				}
+				if strings.Contains(b, ".members") && strings.Contains(b, `""==`) {
+					membersEmpty = a.B(b)
+				}
+			}
+			plain := exNil && membersEmpty
+			kind := typeStr(obj.typ)
+			switch {
+			case strings.HasSuffix(kind, "SimplePoint"):
+				if !(allow && plain) {
+					return fmt.Sprintf("a SimplePoint is returned although AllowSimplePoints=%v, extra ordinates absent=%v, members absent=%v (z values or members would be lost)", allow, exNil, membersEmpty)
+				}
+				pt := leaf(obj, "Point")
+				if pt == nil || pt.name != posName {
+					return "the SimplePoint does not hold the parsed position"
+				}
+			case strings.HasSuffix(kind, "Point"):
+				if allow && plain {
+					return "AllowSimplePoints is set and the point is plain, but a Point is returned"
+				}
+				pt := leaf(obj, "base")
+				if pt == nil || pt.name != posName {
+					return "the Point does not hold the parsed position"
+				}
+				if ex := leaf(obj, "extra"); !exNil && (ex == nil || ex.k != kStruct) {
+					return "the Point loses its extra ordinates"
+				}
+			default:
+				return "unexpected kind " + kind
+			}
+			return ""
+		}})
+	for _, o := range c.Obs[before:] {
+		o.Rule = "E7.V6"
 	}
 	// AllowRects: the rectangle is built from positions 0 and 2 of the tested ring
 	fn2 := p.Func("geojson", "parseJSONPolygon")
@@ -898,4 +928,25 @@ func sortedKeys(m map[string]string) []string {
 	}
 	sort.Strings(ks)
 	return ks
+}
+
+// callsParse: a repository helper that parses children through Parse.
+func (p *Program) callsParse(f *types.Func, depth int) bool {
+	fd, pkg := p.Decl(f), p.DeclPkg(f)
+	if fd == nil || depth > 2 || !p.IsRepoPkg(f.Pkg()) || strings.HasPrefix(f.Name(), "parseJSON") {
+		return false
+	}
+	parse := p.Func("geojson", "Parse")
+	found := false
+	ast.Inspect(fd.Body, func(n ast.Node) bool {
+		if call, ok := n.(*ast.CallExpr); ok {
+			if g, _ := typeutil.Callee(pkg.TypesInfo, call).(*types.Func); g != nil {
+				if g == parse || (g != f && p.callsParse(g, depth+1)) {
+					found = true
+				}
+			}
+		}
+		return !found
+	})
+	return found
 }
